@@ -37,18 +37,36 @@ class RopeStr(core.Sym):
         return self.rope
 
 
+def _env(ctx, E):
+    """the environment whose token is asked for: the stock Android one, or one derived from it that carries the constants of another
+    release (the way the library is retargeted: a subclass overriding some of the three constants, selected with YowsupEnv.setEnv)"""
+    import base64
+    which = ctx.choice("environment", ["stock", "derived:classes", "derived:key", "derived:signature", "derived:all"])
+    if which == "stock":
+        return E.AndroidYowsupEnv()
+    over = {}
+    if which in ("derived:classes", "derived:all"):
+        over["_MD5_CLASSES"] = base64.b64encode(bytes(range(16, 32))).decode()
+    if which in ("derived:key", "derived:all"):
+        over["_KEY"] = base64.b64encode(bytes((7 * i + 1) % 256 for i in range(80))).decode()
+    if which in ("derived:signature", "derived:all"):
+        over["_SIGNATURE"] = base64.b64encode(bytes((3 * i + 5) % 256 for i in range(300))).decode()
+    return type("OtherReleaseEnv", (E.AndroidYowsupEnv,), over)()
+
+
 def h_token(ctx, lmax):
     import base64
     import yowsup.env.env_android as E
     L = ctx.int("L", 0, lmax)
-    env = E.AndroidYowsupEnv()
+    env = _env(ctx, E)
+    C = type(env)
     if H.sym(ctx):
         E.hashlib, E.base64 = M.M_hashlib, M.M_base64
         phone_bytes = H.blob(ctx, "PHONE", L)
         out = env.getToken(RopeStr(phone_bytes))
-        key = base64.b64decode(E.AndroidYowsupEnv._KEY)
-        sig = base64.b64decode(E.AndroidYowsupEnv._SIGNATURE)
-        cls_ = base64.b64decode(E.AndroidYowsupEnv._MD5_CLASSES)
+        key = base64.b64decode(C._KEY)
+        sig = base64.b64decode(C._SIGNATURE)
+        cls_ = base64.b64decode(C._MD5_CLASSES)
         ipad = bytes(0x36 ^ k for k in key[:64])
         opad = bytes(0x5C ^ k for k in key[:64])
         inner = Term("hash", "sha1", M.rope(ipad + sig + cls_) + phone_bytes)
@@ -56,11 +74,11 @@ def h_token(ctx, lmax):
         outer = Term("hash", "sha1", M.rope(opad) + M.tblob(inner, 20))
         outer.size = 20
         ref = M.M_base64.b64encode(M.tblob(outer, 20))
-        return [("token == b64(SHA1(opad || SHA1(ipad || signature || classes || phone)))", valkey(M.rope(out)) == valkey(ref))]
+        return [("token == b64(SHA1(opad || SHA1(ipad || signature || classes || phone))) with the constants of the environment in use", valkey(M.rope(out)) == valkey(ref))]
     from ref import wa_registration_ref as R
     phone = "".join("0123456789"[(i * 7 + 3) % 10] for i in range(L))
-    return [("token == b64(SHA1(opad || SHA1(ipad || signature || classes || phone)))",
-             env.getToken(phone) == R.token(E.AndroidYowsupEnv._KEY, E.AndroidYowsupEnv._SIGNATURE, E.AndroidYowsupEnv._MD5_CLASSES, phone))]
+    return [("token == b64(SHA1(opad || SHA1(ipad || signature || classes || phone))) with the constants of the environment in use",
+             env.getToken(phone) == R.token(C._KEY, C._SIGNATURE, C._MD5_CLASSES, phone))]
 
 
 def h_token_twice(ctx, n1, n2):
